@@ -449,7 +449,9 @@ where
                 // `default_or_panic` will not panic.
                 A::default_or_panic(),
             ),
-            ChunkClass::NonDummy(mut chunk) => {
+            ChunkClass::NonDummy(original_chunk) => {
+                let mut chunk = original_chunk;
+
                 while let Some(next_chunk) = chunk.next() {
                     chunk = next_chunk;
 
@@ -463,8 +465,33 @@ where
                     }
                 }
 
+                // A prepared allocation (like the buffer of a `MutBumpVec`) may still live in
+                // the original chunk, so it must stay the current chunk when we fail to append a
+                // new one, no matter if by returning an error or by a "capacity overflow" panic.
+                struct RestoreOnFailure<'a, A, S> {
+                    current: &'a Cell<RawChunk<A, S>>,
+                    original: RawChunk<A, S>,
+                }
+
+                impl<A, S> Drop for RestoreOnFailure<'_, A, S> {
+                    fn drop(&mut self) {
+                        self.current.set(self.original);
+                    }
+                }
+
+                let restore_on_failure = RestoreOnFailure {
+                    current: &self.chunk,
+                    original: original_chunk.raw,
+                };
+
                 // there is no chunk that fits, we need a new chunk
-                chunk.append_for(*layout)
+                let new_chunk = chunk.append_for(*layout);
+
+                if new_chunk.is_ok() {
+                    core::mem::forget(restore_on_failure);
+                }
+
+                new_chunk
             }
         }?;
 
